@@ -115,6 +115,7 @@ type stateless struct {
 	inputs   [][]byte
 	refused  [][]byte // well-formed requests refused by a list rule (algorithm / curve not allowed)
 	creates  [][]byte
+	deacts   [][]byte
 	suffixes []string
 }
 
@@ -314,6 +315,7 @@ func All() []Scenario {
 				st.suffixes = append(st.suffixes, ops.Suffix(c, 18))
 				u := ops.ValidUpdate(ops.Suffix(c, 18), upd, next, []any{ops.ParseJSON(fmt.Sprintf(`{"action":"add-also-known-as","uris":["https://t%d.example/"]}`, i))}, 18, ops.Window{})
 				st.inputs = append(st.inputs, ops.Bytes(u))
+				st.deacts = append(st.deacts, ops.Bytes(ops.ValidDeactivate(ops.Suffix(c, 18), rec, 18, ops.Window{})))
 				// requests that the parser refuses on the error paths of its list rules: a signature algorithm and a curve that are not allowed
 				bad := keys.New([]string{"P-384", "P-521", "P-384"}[i], 330+i)
 				st.refused = append(st.refused, ops.Bytes(ops.ValidUpdate(ops.Suffix(c, 18), bad, next, []any{ops.ParseJSON(`{"action":"add-also-known-as","uris":["https://r.example/"]}`)}, 18, ops.Window{})))
@@ -365,6 +367,22 @@ func All() []Scenario {
 						r2, e2 := st.docT.TransformDocument(&cp, info)
 						r3, e3 := st.didT2.TransformDocument(rm, info)
 						return hashJSON([]any{r1, fmt.Sprint(e1), r2, fmt.Sprint(e2), r3, fmt.Sprint(e3)})
+					})
+					// a deactivated DID and a DID created with a delta that cannot be used: the models the applier returns for them go to the
+					// generic transformer as they are (documents without content are where an applier could hand out something shared)
+					r.Call(t, "deactivate-transform", func() string {
+						created, err := st.applier.Apply(&operation.AnchoredOperation{Type: operation.TypeCreate, UniqueSuffix: st.suffixes[i], OperationRequest: st.creates[i], TransactionTime: uint64(10 + i)}, &protocol.ResolutionModel{})
+						if err != nil {
+							return "error " + err.Error()
+						}
+						gone, err := st.applier.Apply(&operation.AnchoredOperation{Type: operation.TypeDeactivate, UniqueSuffix: st.suffixes[i], OperationRequest: st.deacts[i], TransactionTime: uint64(30 + i)}, created)
+						if err != nil {
+							return "error " + err.Error()
+						}
+						info := protocol.TransformationInfo{"id": "did:sidetree:" + st.suffixes[i], "published": true}
+						r1, e1 := st.docT.TransformDocument(gone, info)
+						r2, e2 := st.didT.TransformDocument(gone, info)
+						return hashJSON([]any{gone.Deactivated, r1, fmt.Sprint(e1), r2, fmt.Sprint(e2)})
 					})
 					r.Call(t, "versions", func() string {
 						c, _ := st.ver.Current()
